@@ -369,6 +369,9 @@ class QueryCreator(BaseQueryCreator):
                             self.query += "?p odml:hasValue ?v .\n"
                             for vidx, val in enumerate(values):
                                 self.query += "?v ?v_member{0} ?v_value{0} .\n".format(vidx)
+                                # only the members, not e.g. the type of the sequence node
+                                self.query += "FILTER(STRSTARTS(STR(?v_member{0}), \"{1}_\")) .\n".format(
+                                    vidx, str(RDF))
                                 self.query += "FILTER(STR(?v_value{0}) = {1}) .\n".format(
                                     vidx, self._literal(val))
                     else:
